@@ -132,6 +132,27 @@ fn stream_bytes(stream: &Stream) -> Result<Vec<u8>, ErrInfo> {
     stream_bytes_via(stream, 0)
 }
 
+/// The judged emission. In workloads with observers the finished stream has a history of its own first: its
+/// owner has counted and verified it, has already written it once through another kind of sink, and (for
+/// half of the shapes) emits a frame-by-frame copy instead of the original. None of that may change the bytes: the object
+/// the caller holds is the result, however often it is looked at, written or copied.
+fn emit_judged(stream: &Stream, w: &Workload) -> Result<Vec<u8>, ErrInfo> {
+    if w.observers && !w.synthetic_silence {
+        std::hint::black_box((stream.count_bits(), flacenc::error::Verify::verify(stream).is_ok()));
+        let _ = std::hint::black_box(stream_bytes_via(stream, (w.emit_sink + 1) % 3));
+        if (w.block + w.channels) % 2 == 0 {
+            // a copy made frame by frame (the type has no `Clone`), with the original's STREAMINFO
+            let mut copy = Stream::with_stream_info(stream.stream_info().clone());
+            for n in 0..stream.frame_count() {
+                copy.add_frame(stream.frame(n).unwrap().clone());
+            }
+            *copy.stream_info_mut() = stream.stream_info().clone();
+            return stream_bytes_via(&copy, w.emit_sink);
+        }
+    }
+    stream_bytes_via(stream, w.emit_sink)
+}
+
 /// A user sink with the required methods only that keeps what it receives (MSB first).
 struct CollectSink {
     bits: usize,
@@ -247,6 +268,13 @@ fn framewise(w: &Workload, src: &mut SimSource) -> Result<Stream, EncodeError> {
                 let _ = std::hint::black_box(stream.frame(n - 1).map(|f| (f.count_bits(), f.block_size())));
                 let _ = std::hint::black_box(stream.stream_info().clone());
             }
+            // ... and that writes what it has so far (a progressive writer, a size estimate): a stream that is
+            // written, counted or verified while it still grows must end up the same
+            if n.is_power_of_two() && n <= 64 {
+                let mut scratch = ByteSink::new();
+                let _ = std::hint::black_box(stream.write(&mut scratch).is_ok());
+                std::hint::black_box((scratch.into_inner().len(), stream.count_bits(), flacenc::error::Verify::verify(&stream).is_ok()));
+            }
         }
     }
     let (_, ctx) = fb_ctx;
@@ -330,7 +358,7 @@ fn body() {
         let _ = h.join();
     }
     let (result, frames) = match &res {
-        Ok(stream) => (stream_bytes_via(stream, w.emit_sink), stream.frame_count()),
+        Ok(stream) => (emit_judged(stream, &w), stream.frame_count()),
         Err(e) => (Err(err_info(e)), 0),
     };
     drop(res);
